@@ -47,6 +47,12 @@ def plan(tier, seed):
         d = lops.gen_tree(rng, depth, None, 5 if tier == "quick" else 6)
         P.add("tree", desc=d, depth=depth,
               dt="complex128" if rng.random() < 0.9 else "complex64")
+    # the same algebra on large operands (lengths up to 20, wider stacks, deeper nesting)
+    rng = P.rng("bigtree")
+    for i in range(120 if tier == "quick" else 3000):
+        depth = int(rng.integers(2, 5 if tier == "quick" else 6))
+        d = lops.gen_tree(rng, depth, None, 20)
+        P.add("bigtree", desc=d, depth=depth, dt="complex128")
     # directed stacking cases: every axis in [-ndim, ndim) and None for each stack type
     rng = P.rng("stack")
     nst = 240 if tier == "quick" else 4000
